@@ -171,7 +171,7 @@ def run_case(case, rec, cid):
 
 
 def classify(case, rej, events):
-    if rej["op"] in ("IterNext", "IterStop"):
+    if rej["op"] in ("IterNext", "IterStop") and rej["clause"].startswith("known:"):
         return recur.known_class(case["rec"])
     return None
 
